@@ -1,29 +1,31 @@
 ------------------------------- MODULE P_C15 -------------------------------
 (* C15 as a monitor over one run_application call (p = program, carrying the specification's expected outcome p.exp):
-     reg(id)             a teardown callback is registered on the root context by a component
+     reg(id, late)       a teardown callback is registered on the root context by a component (late: by a teardown callback,
+                         while the root context is being torn down)
      td(id)              that callback runs
      outcome(k, code, exc)   run_application returned (k = "return"), raised SystemExit(code) (k = "exit") or raised exc (k = "raise") *)
 EXTENDS Naturals, Sequences, FiniteSets
-MonInit == [regs |-> <<>>, tds |-> <<>>, finished |-> FALSE, ok |-> TRUE, why |-> "", hits |-> {}]
+MonInit == [regs |-> <<>>, lates |-> {}, tds |-> <<>>, finished |-> FALSE, ok |-> TRUE, why |-> "", hits |-> {}]
 Fail(m, w) == [m EXCEPT !.ok = FALSE, !.why = w]
 Hit(m, h) == [m EXCEPT !.hits = @ \cup {h}]
 Rev(s) == [i \in 1..Len(s) |-> s[Len(s) + 1 - i]]
 Range(q) == {q[i] : i \in DOMAIN q}
 MonNext(p, m, e) ==
   IF ~m.ok THEN m ELSE
-  CASE e.ev = "reg" -> IF m.finished THEN Fail(m, "registration-after-run_application-finished") ELSE [m EXCEPT !.regs = Append(@, e.id)]
+  CASE e.ev = "reg" -> IF m.finished THEN Fail(m, "registration-after-run_application-finished")
+                       ELSE IF e.late THEN [m EXCEPT !.lates = @ \cup {e.id}] ELSE [m EXCEPT !.regs = Append(@, e.id)]
     [] e.ev = "td" ->
          IF m.finished THEN Fail(m, "teardown-callback-ran-after-run_application-finished")
          ELSE IF e.id \in Range(m.tds) THEN Fail(m, "teardown-callback-ran-twice")
          ELSE [m EXCEPT !.tds = Append(@, e.id)]
     [] e.ev = "outcome" ->
          LET m1 == [m EXCEPT !.finished = TRUE] IN
-         IF Range(m.tds) # Range(m.regs) THEN Fail(m1, "not-every-root-teardown-callback-ran-before-run_application-finished")
-         ELSE IF m.tds # Rev(m.regs) THEN Fail(m1, "root-teardown-callbacks-not-in-reverse-order")
+         IF Range(m.tds) # Range(m.regs) \cup m.lates THEN Fail(m1, "not-every-root-teardown-callback-ran-before-run_application-finished")
+         ELSE IF SelectSeq(m.tds, LAMBDA x : x \notin m.lates) # Rev(m.regs) THEN Fail(m1, "root-teardown-callbacks-not-in-reverse-order")
          ELSE IF p.exp.k = "any" THEN Hit(m1, "any")
          ELSE IF e.k # p.exp.k THEN Fail(m1, "wrong-kind-of-outcome-expected-" \o p.exp.k \o "-got-" \o e.k)
          ELSE IF e.k = "exit" /\ e.code # p.exp.code THEN Fail(m1, "wrong-exit-status")
          ELSE IF e.k = "raise" /\ e.exc # p.exp.exc THEN Fail(m1, "original-exception-not-propagated")
-         ELSE Hit(m1, e.k \o "-" \o p.end.kind)
+         ELSE Hit(IF m.lates # {} THEN Hit(m1, "callback-registered-during-teardown-ran") ELSE m1, e.k \o "-" \o p.end.kind)
     [] OTHER -> m
 =============================================================================
